@@ -338,6 +338,42 @@ def coords_shard(arg):
     return st
 
 
+def large_shard(arg):
+    """arrays with more than 256 elements: flatten / reshape to every factorisation, row/column views and
+    strided slices (identity of elements by variable id)"""
+    h, w = arg
+    st = Stats()
+    n = h * w
+    for elem in ("bool", "int"):
+        for kind in ("1d", "2d"):
+            hh, ww = (n, 0) if kind == "1d" else (h, w)
+            if kind == "2d":
+                case = dict(kind=kind, h=hh, w=ww, elem=elem, op="flatten")
+                try:
+                    check_reshape(case)
+                except Failure as f:
+                    st.fail(f, case, "c13.large")
+                st.case(nontrivial=True, counted=True, classes=["large-array"], sample=case)
+            for h2 in range(1, n + 1):
+                if n % h2:
+                    continue
+                case = dict(kind=kind, h=hh, w=ww, elem=elem, op="reshape", shape=[h2, n // h2])
+                try:
+                    check_reshape(case)
+                except Failure as f:
+                    st.fail(f, case, "c13.large")
+                st.case(nontrivial=True, counted=True, classes=["large-array", "reshape"], sample=case)
+        for key in ({"t": [{"s": [None, None, -1]}, {"s": [None, None, 7]}]}, {"t": [-1, {"s": [None, None, -3]}]},
+                    {"t": [{"s": [5, None, 11]}, -1]}, h - 1, {"s": [-2, None, None]}):
+            case = dict(kind="2d", h=h, w=w, elem=elem, key=key)
+            try:
+                check_index(case)
+            except Failure as f:
+                st.fail(f, case, "c13.large")
+            st.case(nontrivial=True, counted=True, classes=["large-array"], sample=None)
+    return st
+
+
 def case_strategy(max_side):
     from hypothesis import strategies as st
 
@@ -390,7 +426,7 @@ def run(ctx):
         "start/stop in {None}+[-size-3,size+3], step in {None,+-1,+-2,+-3,+-5} on 1-D sizes 0..6 and "
         "2-D shapes, one axis exhaustive and the other from {':', every int, 6 representative slices} "
         "(thorough: full product on shapes <= 3x4), coordinate lists, flatten/reshape to every "
-        "factorisation, plus Hypothesis-drawn key pairs; oracle = Python list indexing per axis. "
+        "factorisation (also on arrays with more than 256 elements: 17x17, 16x17, 300x1, 1x257, 20x20, 3x100), plus Hypothesis-drawn key pairs; oracle = Python list indexing per axis. "
         "non-trivial = negative step, or a bound outside [0,size], or a negative bound/index; "
         "distinct by construction for enumerations, by case hash for Hypothesis"
     )
@@ -415,6 +451,8 @@ def run(ctx):
     for r in pmap(enum_shard, shards):
         ctx.stats.merge(r)
     for r in pmap(coords_shard, [(h, w) for h in range(0, 5) for w in range(0, 5)]):
+        ctx.stats.merge(r)
+    for r in pmap(large_shard, [(17, 17), (16, 17), (300, 1), (1, 257), (20, 20), (16, 16), (3, 100)]):
         ctx.stats.merge(r)
     n_h = 3000 if quick else 40000
     k = 4 if quick else 16
